@@ -23,9 +23,9 @@ func init() {
 			"non-trivial = the cancellation landed while the producer goroutine was alive (or the directed window was entered); distinct = distinct (count, rate, receiver, cancellation, outcome) signatures",
 		Assumptions: []string{"no wall-clock comparison is used: 'immediately' = available by non-blocking receive at return, 'promptly' = within 5000 heartbeats + rate"},
 		Families: []core.Family{
-			{Name: "matrix", N: core.TierN(600, 6000), Batch: 30, Run: c20Matrix},
-			{Name: "directed-tick-race", N: core.TierN(120, 1200), Batch: 20, Run: c20Directed},
-			{Name: "fast-ticks-under-load", N: core.TierN(16, 120), Batch: 2, Run: c20FastTicks},
+			{Name: "matrix", N: core.TierN(600, 24000), Batch: 30, Run: c20Matrix},
+			{Name: "directed-tick-race", N: core.TierN(120, 4800), Batch: 20, Run: c20Directed},
+			{Name: "fast-ticks-under-load", N: core.TierN(16, 480), Batch: 2, Run: c20FastTicks},
 		},
 	})
 }
